@@ -6,17 +6,36 @@
   instantiated at the regenerated constants `K = I3.Inst.bjConsts`, the BLAKE-512 model `I3.Inst.blake`,
   the field hashes `I3.Inst.hPoseidon` / `I3.Inst.hMimc7` and the square root `I3.Inst.sqrtQ`.
 
-  Every lemma `<generated name>_eq` holds for EVERY input.  The only hypotheses anywhere are lengths of
-  Go ARRAY parameters (`[32]byte`, `[64]byte`: the length is the Go type, not a restriction), and only
-  where the total list semantics of the translation could otherwise tell the two sides apart
-  (`pruneBuffer`, the two `Decompress`); the private key of `SkToBigInt` / `Public` / `Sign*` needs no
-  length hypothesis (it is only hashed).
+  Every lemma `<generated name>_eq` holds for EVERY input.  The only hypotheses anywhere are the lengths
+  of two Go ARRAY parameters (`[32]byte`: the length is the Go type, not a restriction), exactly where
+  the total list semantics of the translation and the model differ on other lengths, with the concrete
+  inputs: `pruneBuffer` (equal iff 32 bytes: `babyjub_pruneBuffer_eq_iff`) and `PublicKeyComp.Decompress`
+  (33 bytes: the `example` after `babyjub_PublicKeyComp_Decompress_eq`).  The private key of `SkToBigInt`
+  / `Scalar` / `Public` / `Sign*` needs no length hypothesis (it is only hashed), nor does the buffer of
+  `Signature.Decompress` / `SignatureComp.Decompress`; `Sign*` / `Verify*` hold for arbitrary integers
+  (messages, coordinates, `S`: negative, unreduced, off the curve).
+
+  Result conventions (`error` = `Option String`, nil pointer = zero value):
+    * `hashToGo`        : model hash `some h ↦ (h, nil)`, `none ↦ (nil, "inputs values not inside Finite Field")`
+                          — the only error `poseidon.Hash` / `mimc7.Hash(·, nil)` can return on 5 inputs;
+    * `signToGo`        : `.ok sig ↦ (sig, nil)`, `.error .hash ↦ (nil, that message)` (no other error);
+    * `verifyToGo fm`   : `.ok () ↦ nil`, `.sOutOfRange ↦ "ErrSOutOfRange"`, `.verifyFailed ↦ fm`
+                          (`"ErrVerifyPoseidonFailed"` / `"ErrVerifyMimc7Failed"`), `.hash ↦` the hash message;
+    * `sigRecvOfExcept` : result, error and RECEIVER of `s.Decompress(buf)`.
+
+  The last section transports the property theorems of I3.Props.C02 / C03 / C14 to any generated triple
+  (hash, signer, verifier) satisfying the bridge equations (`IsEdDSA`), instantiated at Poseidon and
+  MiMC7; I3.Props.C02Gen / C03Gen / C14Gen quote them with the generated names.
 
   Proof technique.  A generated definition is unfolded at FUNCTION level (`go_delta f`: the kernel
   compares the constant `f` with its λ-body, never an application of `f` with a `match … with` whose
   discriminant is an open term — see the note at `babyjub_Point_Decompress_eq`), then the callees are
-  rewritten with the bridge lemmas of I3.Lemmas.GoBridgeBabyjub / GoBridgePoseidon / GoBridgeMimc7, so that
-  every `let (a, b) := callee …` meets a literal pair before it is reduced.
+  rewritten with the bridge lemmas of I3.Lemmas.GoBridgeBabyjub / GoBridgePoseidon / GoBridgeMimc7
+  (`simp -iota only`: pure congruence rewriting), so that every `let (a, b) := callee …` meets a literal
+  pair; the `match`es are then reduced inside an auxiliary lemma (`as_aux_lemma`) in which every expensive
+  subterm (`Inst.blake …`, `mul K`, `Inst.hPoseidon`, …) has been generalized to a VARIABLE — a
+  `generalize` alone does not survive in the proof term, and the kernel would evaluate BLAKE / Poseidon /
+  the scalar multiplication on open terms while comparing two `match` applications.
 -/
 import I3.Lemmas.GoBridgeBabyjub
 import I3.Lemmas.GoBridgePoseidon
@@ -213,6 +232,12 @@ theorem babyjub_PublicKeyComp_Decompress_eq (b : Bytes) (hb : b.length = 32) :
   generalize decompress K Inst.sqrtQ b = r
   cases r <;> rfl
 
+/-- the length hypothesis cannot be dropped: on 33 bytes the translated `UnpackSignY` reads the
+33rd byte (`y ≥ 2^256`), the model does not -/
+example : babyjub_PublicKeyComp_Decompress (List.replicate 33 1) = ((0, 0), some "p.y >= Q") ∧
+    ofExcept (decompress K Inst.sqrtQ (List.replicate 33 1)) =
+      ((0, 0), some "x is not a square mod q") := by decide +kernel
+
 /-! ## signature codec -/
 
 /-- a Go `Signature{R8, S}` as the model's record -/
@@ -255,27 +280,66 @@ def sigRecvOfExcept (recv : (Int × Int) × Int) :
   | .error (.point e) => (default, some (errMsg e), ((default : Int × Int), recv.2))
   | .error _ => (default, some "", recv)
 
-/-- **`s.Decompress(buf)`** for every previous receiver content and every buffer of at least 32
-bytes (the Go parameter is a `[64]byte`): result, error and receiver after the call -/
-theorem babyjub_Signature_Decompress_of_le (recv : (Int × Int) × Int) (b : Bytes)
-    (hb : 32 ≤ b.length) :
+theorem leToNat_replicate_zero (k : Nat) : leToNat (List.replicate k 0) = 0 := by
+  induction k with
+  | zero => rfl
+  | succ k ih => rw [List.replicate_succ, leToNat, ih]; rfl
+
+theorem leToNat_append_zeros (x : Bytes) (k : Nat) :
+    leToNat (x ++ List.replicate k 0) = leToNat x := by
+  rw [Lemmas.Bytes.leToNat_append, leToNat_replicate_zero, Nat.mul_zero, Nat.add_zero]
+
+/-- zero-padding a short buffer to 32 bytes does not change what the model's `unpackSignY` reads -/
+theorem unpackSignY_pad (b : Bytes) (hb : b.length < 32) :
+    unpackSignY (b ++ List.replicate (32 - b.length) 0) = unpackSignY b := by
+  unfold unpackSignY
+  have h1 : (b ++ List.replicate (32 - b.length) 0).getD 31 0 = 0 := by
+    rw [List.getD_eq_getElem?_getD, List.getElem?_append_right (by omega), List.getElem?_replicate]
+    split_ifs <;> rfl
+  have h2 : b.getD 31 0 = 0 := by
+    rw [List.getD_eq_getElem?_getD, List.getElem?_eq_none (by omega)]; rfl
+  have h3 : (b ++ List.replicate (32 - b.length) 0).take 31 =
+      b ++ List.replicate (31 - b.length) 0 := by
+    rw [List.take_append, List.take_of_length_le (by omega), List.take_replicate]
+    congr 2; omega
+  simp only [h1, h2, h3]
+  have h4 : b.take 31 = b := List.take_of_length_le (by omega)
+  have h5 : ([(0 : UInt8) &&& 0x7F] : Bytes) = List.replicate 1 0 := by decide
+  rw [h4, h5, leToNat_append_zeros, leToNat_append_zeros, leToNat_append_zeros]
+
+/-- the `[32]byte` that `Signature.Decompress` hands to `Point.Decompress`: the first 32 bytes of the
+buffer (zero-padded when the list is shorter, which the model's decoder does not notice) -/
+theorem decompress_copy_take (b : Bytes) :
+    (Go.copyInto (List.replicate 32 (default : UInt8)) 0
+        (Go.len (List.replicate 32 (default : UInt8))) (b.take 32)).length = 32 ∧
+      decompress K Inst.sqrtQ (Go.copyInto (List.replicate 32 (default : UInt8)) 0
+        (Go.len (List.replicate 32 (default : UInt8))) (b.take 32)) =
+      decompress K Inst.sqrtQ (b.take 32) := by
+  rw [copyInto_replicate_any, List.take_take, Nat.min_self]
+  by_cases h : 32 ≤ b.length
+  · have hl : (b.take 32).length = 32 := by rw [List.length_take]; omega
+    rw [hl, Nat.sub_self, List.replicate_zero, List.append_nil]
+    exact ⟨hl, rfl⟩
+  · have hl : (b.take 32).length < 32 := by rw [List.length_take]; omega
+    refine ⟨by rw [List.length_append, List.length_replicate]; omega, ?_⟩
+    rw [decompress_def, decompress_def]
+    exact congrArg (fun u : Bool × Nat => pointFromSignAndY K Inst.sqrtQ u.1 (u.2 : Int))
+      (unpackSignY_pad _ hl)
+
+/-- **`s.Decompress(buf)`** for every previous receiver content and EVERY buffer (the Go parameter
+is a `[64]byte`; no length hypothesis is needed): result, error and receiver after the call -/
+theorem babyjub_Signature_Decompress_eq (recv : (Int × Int) × Int) (b : Bytes) :
     babyjub_Signature_Decompress recv b = sigRecvOfExcept recv (sigDecompress K Inst.sqrtQ b) := by
   go_delta babyjub_Signature_Decompress
-  have hlen : (b.take 32).length = 32 := by rw [List.length_take]; omega
+  obtain ⟨hlen, hdec⟩ := decompress_copy_take b
   -- `-iota`: the `match` on the result of `Point.Decompress` must not be reduced (by structure eta)
   -- before its discriminant is a variable: the kernel would evaluate `decompress` on the open `b`
-  simp -iota only [slice_0_32, slice_32_len, copyInto_replicate_full (default : UInt8) 32 _ hlen,
-    babyjub_Point_Decompress_eq _ _ hlen, utils_SetBigIntFromLEBytes_eq]
+  simp -iota only [slice_0_32, slice_32_len, babyjub_Point_Decompress_eq _ _ hlen, hdec,
+    utils_SetBigIntFromLEBytes_eq]
   unfold sigDecompress
   generalize decompress K Inst.sqrtQ (b.take 32) = r
   generalize ((leToNat (b.drop 32) : Nat) : Int) = sv
   cases r <;> rfl
-
-/-- **`s.Decompress(buf)`** on a `[64]byte` -/
-theorem babyjub_Signature_Decompress_eq (recv : (Int × Int) × Int) (b : Bytes)
-    (hb : b.length = 64) :
-    babyjub_Signature_Decompress recv b = sigRecvOfExcept recv (sigDecompress K Inst.sqrtQ b) :=
-  babyjub_Signature_Decompress_of_le recv b (by omega)
 
 /-- the Go result `(*Signature, error)` of `sComp.Decompress()` -/
 def sigOfExcept : Except Model.EdDSA.Err Sig → ((Int × Int) × Int) × Option String
@@ -283,11 +347,11 @@ def sigOfExcept : Except Model.EdDSA.Err Sig → ((Int × Int) × Int) × Option
   | .error (.point e) => (default, some (errMsg e))
   | .error _ => (default, some "")
 
-/-- **`sComp.Decompress()`** on a `[64]byte` -/
-theorem babyjub_SignatureComp_Decompress_eq (b : Bytes) (hb : b.length = 64) :
+/-- **`sComp.Decompress()`** for EVERY buffer (the Go receiver is a `[64]byte`) -/
+theorem babyjub_SignatureComp_Decompress_eq (b : Bytes) :
     babyjub_SignatureComp_Decompress b = sigOfExcept (sigDecompress K Inst.sqrtQ b) := by
   go_delta babyjub_SignatureComp_Decompress
-  rw [babyjub_Signature_Decompress_eq _ b hb]
+  rw [babyjub_Signature_Decompress_eq _ b]
   generalize sigDecompress K Inst.sqrtQ b = r
   rcases r with (_ | _ | _ | e | _ | _ | _ | _ | _) | sig <;> rfl
 
@@ -955,7 +1019,7 @@ theorem sign_verify_roundtrip (k : Bytes) (msg : ℤ) (sig : (ℤ × ℤ) × ℤ
   subst e1 e2
   refine ⟨?_, ?_, B.sign_verify k msg sig h⟩
   · rw [babyjub_Signature_Compress_eq,
-      babyjub_SignatureComp_Decompress_eq _ (Props.C15.sigCompress_length _ _), h1]
+      babyjub_SignatureComp_Decompress_eq, h1]
     rfl
   · have hl : (babyjub_PublicKey_Compress (babyjub_PrivateKey_Public k)).length = 32 := by
       rw [babyjub_PublicKey_Compress_eq]; exact Props.C15.compress_length _ _
